@@ -197,6 +197,15 @@ def run(f, fixture, rep, cfg, tier):
             seq.append(("metadata", render(tpw.term(c.args[0]))))
         elif c.trait == "std::io::Write":
             seq.append((c.decl.rsplit("::", 1)[-1], render(tpw.term(c.args[1]))))
+        elif c.decl.endswith("Result::<T, E>::and_then") and len(c.args) == 2:
+            for lf in pw.origins(c.args[1], passthrough={}):
+                if lf["kind"] == "agg" and lf["stmt"]["rv"].get("ak") == "closure":
+                    cb_ = f.bodies.get(lf["stmt"]["rv"]["closure"])
+                    if cb_ is not None:
+                        tcb_ = TermBuilder(cb_, closure_env=True)
+                        for c2 in sorted(cb_.calls(), key=lambda x: x.bb):
+                            if c2.trait == "std::io::Write":
+                                seq.append((c2.decl.rsplit("::", 1)[-1], render(tcb_.term(c2.args[1]))))
     rep.check(seq == [("metadata", "self.metadata"), ("write_all", "self.content")], "O7", "Package|write-order", "the payload follows the metadata and nothing else is written",
               "Package::write emits %s" % seq, pw.span)
 
